@@ -251,7 +251,9 @@ def run(tier: str) -> Run:
         if n_runs == 0:
             continue
         if n_products == 0:
-            raise AnalysisError(f'{fi.fq}: no single-precision intermediate was recorded for float32 inputs')
+            # nothing is computed in single precision (a dtype-contract matter: R4); the instance still counts
+            r5.ok(name, {'unit_assignments': n_runs, 'power_products_bounded': 0, 'note': 'no float32 intermediate for float32 inputs (see R4)'}, nontrivial=False)
+            continue
         r5.check(worst is None, name, loc(fi), {'unit_assignments': n_runs, 'power_products_bounded': n_products, 'worst': worst},
                  key=f'conversion.tof:{name}:f32-range')
     run.exhaustive = tier == 'thorough'
